@@ -440,3 +440,33 @@ pub fn fetch_blocks(dir: &Path, coin: &str, s: u64, last: u64, verify: bool) -> 
     for h in s..=last { match storage.get_block(h) { Ok(Some(b)) => v.push(b), Ok(None) => return Err(format!("height {} missing", h)), Err(e) => return Err(format!("height {}: {}", h, e)) } }
     Ok(v)
 }
+
+// ---- log capture: the callbacks report their totals / figures through the `log` facade ------------
+pub struct CaptureLogger;
+static LOGS: Mutex<Vec<(String, String)>> = Mutex::new(Vec::new());
+static LOGGER_ONCE: std::sync::Once = std::sync::Once::new();
+impl log::Log for CaptureLogger {
+    fn enabled(&self, m: &log::Metadata) -> bool { m.level() <= log::Level::Info }
+    fn log(&self, r: &log::Record) { if self.enabled(r.metadata()) { LOGS.lock().unwrap().push((format!("{:?}", std::thread::current().id()), format!("{}", r.args()))); } }
+    fn flush(&self) {}
+}
+/// installs the capturing logger (once per process) and clears this thread's captured lines
+pub fn log_begin() {
+    LOGGER_ONCE.call_once(|| { let _ = log::set_boxed_logger(Box::new(CaptureLogger)); log::set_max_level(log::LevelFilter::Info); });
+    let me = format!("{:?}", std::thread::current().id());
+    LOGS.lock().unwrap().retain(|(t, _)| *t != me);
+}
+/// everything logged by this thread since log_begin()
+pub fn log_text() -> String {
+    let me = format!("{:?}", std::thread::current().id());
+    LOGS.lock().unwrap().iter().filter(|(t, _)| *t == me).map(|(_, l)| l.clone()).collect::<Vec<_>>().join("\n")
+}
+/// open file descriptors of this process that point into `dir` (Linux): returns the file names
+pub fn open_files_in(dir: &Path) -> Vec<String> {
+    let mut v = Vec::new();
+    if let Ok(rd) = fs::read_dir("/proc/self/fd") {
+        for e in rd.flatten() { if let Ok(t) = fs::read_link(e.path()) { if t.starts_with(dir) && t.parent() == Some(dir) { v.push(t.file_name().unwrap().to_string_lossy().to_string()); } } }
+    }
+    v.sort();
+    v
+}
